@@ -149,9 +149,10 @@ emit_convert = template(is_func=True,
                         context=__i18n_context,
                         target_language=target_language
                     )
-                    target = str(target) \
-                        if target is __converted \
-                        else __converted
+                    # (whatever the translation function answers is
+                    # coerced to a string)
+                    target = None if __converted is None \
+                        else str(__converted)
                 else:
                     target = __markup()""")
 
@@ -180,9 +181,10 @@ emit_func_convert = template(
                         context=__i18n_context,
                         target_language=target_language
                     )
-                    target = str(target) \
-                        if target is __converted \
-                        else __converted
+                    # (whatever the translation function answers is
+                    # coerced to a string)
+                    target = None if __converted is None \
+                        else str(__converted)
                 else:
                     target = __markup()
 
@@ -231,8 +233,10 @@ emit_func_convert_and_escape = template(
                     context=__i18n_context,
                     target_language=target_language
                 )
-                target = str(target) if target is __converted \
-                         else __converted
+                # (whatever the translation function answers is
+                # coerced to a string - and escaped like any other)
+                target = None if __converted is None \
+                    else str(__converted)
             else:
                 return __markup()
 
